@@ -61,6 +61,9 @@ func EvalMainModule(vm *r.VM, program *syntax.Program, varInputs r.ElementMap) (
 func evalProgram(vm *r.VM, program *syntax.Program, varInputs r.ElementMap) (r.Element, error) {
 	// 1. import libs
 	for _, importStmt := range program.ImportBlock {
+		// an import statement is a statement of its text: an error that arises while it runs
+		// (also inside the module it imports) is reported at ITS line
+		vm.SetCurrentLine(importStmt.GetCurrentLine())
 		if err := evalImportStmt(vm, importStmt); err != nil {
 			return nil, err
 		}
